@@ -7,7 +7,7 @@ def pl(p):
         if e == "*":
             s = "(*%s)" % s
         elif e.startswith("."):
-            s = "%s%s" % (s, e)
+            s = "%s%s" % (s, e.partition("@")[0])
         elif e.startswith("as "):
             s = "(%s %s)" % (s, e)
         else:
